@@ -3,6 +3,7 @@ package rockredis
 import (
 	"bytes"
 	"errors"
+	"math"
 	"time"
 
 	ps "github.com/prometheus/client_golang/prometheus"
@@ -648,6 +649,9 @@ func (db *RockDB) HIncrBy(ts int64, key []byte, field []byte, delta int64) (int6
 		}
 	}
 
+	if (delta > 0 && n > math.MaxInt64-delta) || (delta < 0 && n < math.MinInt64-delta) {
+		return 0, errIncrOverflow
+	}
 	n += delta
 
 	_, err = db.hSetField(ts, false, key, field, FormatInt64ToSlice(n), wb, hindex)
